@@ -26,7 +26,7 @@ RULE = ("C08-style descriptions; in one build a generated subset of the shell co
 ASSUMPTIONS = ["a command counts as cancelled when vtool logged 'start' but neither 'done' nor 'fail' (killed by the "
                "cancellation signal)"]
 
-FAULTS = ["exit 1", "exit 2", "exit 255", "signal 11", "signal 6", "signal 15", "readmissing", "unwritable"]
+FAULTS = ["exit 1", "exit 2", "exit 255", "signal 11", "signal 6", "signal 15", "signal 9", "signal 2", "readmissing", "unwritable"]
 
 
 def budget(tier):
